@@ -44,6 +44,13 @@ def addrtab_programs(rng, tier):
                 if not last:
                     body += ["section 2", "embed 9090", "elabel 0 8"]
                 progs.append(["init x64 %s" % ("-" if ib is None else "%x" % ib)] + body + c03.tail(base))
+    # base known at init: absolute targets just ahead of / behind the instruction, around the rel8 limit (short/long choice)
+    for arch, base in (("x64", 0x7FFFF000), ("x64", 1 << 47), ("x86", 0x400000)):
+        for k in ("jmp", "jz", "jecxz"):
+            for d in (-131, -130, -129, -128, -127, 125, 126, 127, 128, 129, 130, 131, 132):
+                # instruction at offset 16: rel8 form ends at 18 (+1 with the 67h prefix of jecxz in 64-bit mode)
+                end8 = 16 + 2 + (1 if (k == "jecxz" and arch == "x64") else 0)
+                progs.append(["init %s %x" % (arch, base), "zeros 16", "jmpabs %s d %x" % (k, (base + end8 + d) & c03.M64)] + c03.tail(base))
     # 32-bit wrap-around, jcc / jecxz through relocations, AArch64 branches to absolute targets
     for base in (0x1000, 0x7FFFF000, 0x80000000, 0xFFFFF000):
         for ib in (None, base):
